@@ -65,11 +65,31 @@ CLAIMED = {
             "note inside a hold raise/pass/drop it; real ungroup_notes outputs of grid, random, corpus and hand-built inputs are "
             "validated by TLC from the original stream.",
             "tails carry no keysound index; per-type grouping claims multiset + non-decreasing beats only."),
+    "C11": ("timing", "6/C11",
+            "TLC checks on every timing data of a bounded model (<= 3-4 events of every kind on a half-beat grid: all coincidences, "
+            "nested/overlapping/touching warps, events at 0) that the operational tagged-event engine equals the declarative timeline "
+            "as exact linear forms at every probe and tag, monotonicity, bpm_at and redundant-BPM invariance; each model timing data is "
+            "replayed in the real engine; random decimal timing data and the corpus are queried for real and TLC returns the exact linear "
+            "form of every answer, evaluated with rationals to 1e-9 s.",
+            "positions on a 1/768-beat grid; numeric evaluation of TLC's linear forms with fractions.Fraction is the only arithmetic outside the spec."),
+    "C12": ("timing", "6/C12",
+            "beat_at is specified as a relation (ticks present at a time; max by default, min for WARP, nearest tick otherwise); TLC "
+            "checks the specified engine satisfies it on the whole bounded model, round trip, pauses, monotonicity; every real beat_at "
+            "answer (boundary times = the engine's own time_at, mid-pause times, random exact times) is decided by TLC symbolically by "
+            "componentwise comparison of linear forms, with no numeric tolerance.",
+            "tags other than WARP/default may return any present tick; times below 1e5 s."),
+    "C13": ("timing", "6/C13",
+            "TLC checks on the bounded model that the engine's hittability formulation equals 'inside the warp union and no pause on "
+            "that beat'; real hittable() answers and time_notes outputs (order, type, untouched fields, times) for model, random and "
+            "corpus timing data with generated routine/keysounded note data are decided by TLC.",
+            "note beats on the 1/768-beat grid; times via linear forms (exact on the smooth sub-domain)."),
 }
 
 PENDING = {}
 
 ENGINES = [
+    ("timing", "spec/timing", ["C11", "C12", "C13"],
+     "Timing.tla (declarative timeline as linear forms, operational tagged-event engine, beat_at relation, hittability) + MC_Timing (TLC BFS over timing data) + Trace_Timing"),
     ("grouping", "spec/grouping", ["C09", "C10"],
      "Grouping.tla (declarative pairing, operational join machine, modes, counts, ungroup machine) + MC_Grouping (TLC BFS of the machine), MC_Ungroup + Trace_Grouping"),
     ("notedata", "spec/notedata", ["C07", "C08"],
